@@ -347,6 +347,8 @@ fn fixed_cases() -> Vec<Case> {
                         // suspended handler first, then the stall
                         let mut ops = vec![Op::Hold(true), Op::Inbound(0), Op::Window(false)];
                         ops.extend(std::iter::repeat_n(q0, n));
+                        // (the library notices the back-pressure and tells the control service; the senders after that park on it)
+                        ops.push(Op::Settle);
                         ops.extend(tail.iter().copied());
                         ops.push(Op::Window(true));
                         ops.push(Op::Settle);
